@@ -5,40 +5,40 @@
 //! of /repo's current source on every run (tools/extract.py) with these
 //! listed substitutions: the sub-scope is a harness-provided binder that
 //! RECORDS every `define(name, value)` in order; the evaluation of a default
-//! value is a call to the binder (records that, and when, it ran); `self`
-//! is the real `FormalArgs` (its private fields are visible here).
-//! `CallArgs::{take_positional, only_named, check_no_named, len}` and
-//! `OrderMap::remove` below are the real ones.  `ArgsError` is a local
-//! stand-in with the constructors the range uses (the real one can hold a
-//! `Box<crate::Error>`, whose drop glue is out of reach): listed.
+//! value is a call to the binder (records that, and when, it ran); the two
+//! fields of `self` are parameters (`self.0` -> `formals`, `self.1` -> `rest`,
+//! with the default-value type instantiated at u8: sass::Value's drop glue
+//! is out of CBMC's reach).
+//! `css::CallArgs` is instantiated at a cheap value type: the BODIES of
+//! `take_positional`, `only_named`, `check_no_named` and `len` are extracted
+//! from css/call_args.rs as well; `OrderMap::{remove, insert, keys, len}`
+//! are the real generic ones.  `ArgsError` is a local stand-in with the
+//! constructors the ranges use (the real one can hold a `Box<crate::Error>`,
+//! whose drop glue is out of reach): listed.
 use super::*;
-use crate::css;
+use crate::ordermap::OrderMap;
 use std::cell::RefCell;
 
+/// The argument VALUE type is instantiated at a cheap stand-in (a Vec or
+/// OrderMap of css::Value costs CBMC > 8 GB per harness): a plain value is
+/// a tag, an argument list converted to a value (`args.into()`, what the
+/// rest parameter receives) remembers how many positional arguments it held.
+#[derive(Clone, Copy, PartialEq, Eq, Debug)]
+pub(crate) enum V {
+    Plain(u8),
+    ArgList(u8),
+}
+
 mod binding {
-    use super::Binder;
-    use crate::css::CallArgs;
-    use crate::sass::{FormalArgs, Name};
+    use super::{Binder, V};
+    use crate::ordermap::OrderMap;
+    use crate::sass::Name;
     #[derive(Debug)]
-    pub(super) enum ArgsError {
+    pub(crate) enum ArgsError {
         TooMany(usize, usize),
         TooManyPos(usize, usize),
         Missing(Name),
         Unexpected(Name),
-    }
-    impl From<crate::sass::ArgsError> for ArgsError {
-        fn from(e: crate::sass::ArgsError) -> Self {
-            match e {
-                crate::sass::ArgsError::Unexpected(n) => Self::Unexpected(n),
-                crate::sass::ArgsError::Missing(n) => Self::Missing(n),
-                crate::sass::ArgsError::TooMany(a, b) => Self::TooMany(a, b),
-                crate::sass::ArgsError::TooManyPos(a, b) => Self::TooManyPos(a, b),
-                crate::sass::ArgsError::Eval(e) => {
-                    std::mem::forget(e);
-                    unreachable!()
-                }
-            }
-        }
     }
     impl From<()> for ArgsError {
         fn from(_: ()) -> Self {
@@ -46,46 +46,68 @@ mod binding {
         }
     }
     type Result<T> = std::result::Result<T, ArgsError>;
+
+    /// `css::CallArgs` at the value type `V`: same fields; the method BODIES
+    /// below are extracted from rsass/src/css/call_args.rs on every run.
+    pub(crate) struct CallArgs {
+        pub(crate) positional: Vec<V>,
+        pub(crate) named: OrderMap<Name, V>,
+        #[allow(dead_code)]
+        pub(crate) trailing_comma: bool,
+    }
+    impl From<CallArgs> for V {
+        fn from(a: CallArgs) -> V {
+            V::ArgList(a.positional.len() as u8)
+        }
+    }
+    impl CallArgs {
+//@range file=rsass/src/css/call_args.rs impl="impl CallArgs" fn=take_positional
+//@  header: pub(crate) fn take_positional(&mut self, n: usize) -> Vec<V>
+//@end
+//@range file=rsass/src/css/call_args.rs impl="impl CallArgs" fn=only_named
+//@  header: pub(crate) fn only_named(&mut self, name: &Name) -> Option<V>
+//@end
+//@range file=rsass/src/css/call_args.rs impl="impl CallArgs" fn=check_no_named
+//@  header: pub(crate) fn check_no_named(&self) -> Result<()>
+//@end
+//@range file=rsass/src/css/call_args.rs impl="impl CallArgs" fn=len
+//@  header: pub(crate) fn len(&self) -> usize
+//@end
+    }
+
 //@range file=rsass/src/sass/formal_args.rs impl="impl FormalArgs" fn=eval from="let mut args = args;"
-//@  header: pub(super) fn snippet_bind_args<'a>(this: &FormalArgs, scope: &'a Binder, args: CallArgs) -> Result<&'a Binder>
+//@  header: pub(super) fn snippet_bind_args<'a>(formals: &[(Name, Option<u8>)], rest: &Option<Name>, scope: &'a Binder, args: CallArgs) -> Result<&'a Binder>
 //@  subst: let argscope = ScopeRef::sub(scope); => let argscope = scope;
-//@  subst: default.do_evaluate(argscope.clone(), true)? => argscope.eval_default(default)?
-//@  subst: self => this
+//@  subst: default.do_evaluate(argscope.clone(), true) => argscope.eval_default(default)
+//@  subst: self.is_varargs() => rest.is_some()
+//@  subst: self.0 => formals
+//@  subst: &self.1 => rest
 //@end
 }
-use binding::{ArgsError as BindError, snippet_bind_args};
+use binding::{ArgsError as BindError, CallArgs as Args, snippet_bind_args};
 
-/// What happened, in order: Bound(first byte of the name, tag of the value)
-/// or DefaultEvaluated.
+/// What happened, in order: Bound(first byte of the name, value) or
+/// DefaultEvaluated.
 #[derive(Clone, Copy, PartialEq, Eq, Debug)]
 pub(crate) enum Ev {
-    Bound(u8, u8),
+    Bound(u8, V),
     DefaultEvaluated,
 }
 pub(crate) struct Binder {
     log: RefCell<Vec<Ev>>,
 }
-fn tag(v: &css::Value) -> u8 {
-    match v {
-        css::Value::True => 1,
-        css::Value::False => 2,
-        css::Value::Null => 3,
-        css::Value::ArgList(a) => 10 + a.positional.len() as u8,
-        _ => 99,
-    }
-}
 impl Binder {
     fn new() -> Self {
         Self { log: RefCell::new(Vec::new()) }
     }
-    fn define(&self, name: Name, val: css::Value) -> std::result::Result<(), ()> {
-        self.log.borrow_mut().push(Ev::Bound(name.as_ref().as_bytes()[0], tag(&val)));
+    fn define(&self, name: Name, val: V) -> std::result::Result<(), ()> {
+        self.log.borrow_mut().push(Ev::Bound(name.as_ref().as_bytes()[0], val));
         Ok(())
     }
-    /// every default in the harnesses is `null`
-    fn eval_default(&self, _default: &Value) -> std::result::Result<css::Value, ()> {
+    /// every default evaluates to Plain(0)
+    fn eval_default(&self, _default: &u8) -> std::result::Result<V, ()> {
         self.log.borrow_mut().push(Ev::DefaultEvaluated);
-        Ok(css::Value::Null)
+        Ok(V::Plain(0))
     }
     fn events(&self) -> Vec<Ev> {
         self.log.borrow().clone()
@@ -95,13 +117,16 @@ impl Binder {
 fn n(s: &'static str) -> Name {
     Name::from_static(s)
 }
-fn call(positional: Vec<css::Value>, named: Vec<(&'static str, css::Value)>) -> css::CallArgs {
-    let mut a = css::CallArgs::from_list(positional);
+fn call(positional: Vec<V>, named: Vec<(&'static str, V)>) -> Args {
+    let mut m = OrderMap::new();
     for (k, v) in named {
-        a.named.insert(n(k), v);
+        m.insert(n(k), v);
     }
-    a
+    Args { positional, named: m, trailing_comma: false }
 }
+const T: V = V::Plain(1);
+const F: V = V::Plain(2);
+const N0: V = V::Plain(0);
 
 /// C18: positional arguments bind by position, then named arguments by
 /// name, then defaults, left to right; a default is evaluated only for a
@@ -110,60 +135,60 @@ fn call(positional: Vec<css::Value>, named: Vec<(&'static str, css::Value)>) -> 
 #[kani::unwind(6)]
 fn c18_positional_then_default() {
     // @function f($a, $b: null) called as f(true)
-    let fa = FormalArgs::new(vec![(n("a"), None), (n("b"), Some(Value::Null))]);
+    let (fa, rest): (Vec<(Name, Option<u8>)>, Option<Name>) = (vec![(n("a"), None), (n("b"), Some(0))], None);
     let b = Binder::new();
-    let r = snippet_bind_args(&fa, &b, call(vec![css::Value::True], vec![]));
+    let r = snippet_bind_args(&fa, &rest, &b, call(vec![T], vec![]));
     assert!(r.is_ok(), "one positional argument and one default: binds");
     let ev = b.events();
-    assert!(ev.len() == 3 && ev[0] == Ev::Bound(b'a', 1) && ev[1] == Ev::DefaultEvaluated && ev[2] == Ev::Bound(b'b', 3),
+    assert!(ev.len() == 3 && ev[0] == Ev::Bound(b'a', T) && ev[1] == Ev::DefaultEvaluated && ev[2] == Ev::Bound(b'b', N0),
         "$a by position, then $b's default evaluated (after $a is bound) and bound");
 }
 #[kani::proof]
 #[kani::unwind(6)]
 fn c18_named_beats_default() {
     // f(true, $b: false): the default of $b is not evaluated
-    let fa = FormalArgs::new(vec![(n("a"), None), (n("b"), Some(Value::Null))]);
+    let (fa, rest): (Vec<(Name, Option<u8>)>, Option<Name>) = (vec![(n("a"), None), (n("b"), Some(0))], None);
     let b = Binder::new();
-    let r = snippet_bind_args(&fa, &b, call(vec![css::Value::True], vec![("b", css::Value::False)]));
+    let r = snippet_bind_args(&fa, &rest, &b, call(vec![T], vec![("b", F)]));
     assert!(r.is_ok());
     let ev = b.events();
-    assert!(ev.len() == 2 && ev[0] == Ev::Bound(b'a', 1) && ev[1] == Ev::Bound(b'b', 2), "$b by name; its default is not evaluated");
+    assert!(ev.len() == 2 && ev[0] == Ev::Bound(b'a', T) && ev[1] == Ev::Bound(b'b', F), "$b by name; its default is not evaluated");
 }
 #[kani::proof]
 #[kani::unwind(6)]
 fn c18_named_in_any_order() {
     // f($b: false, $a: true)
-    let fa = FormalArgs::new(vec![(n("a"), None), (n("b"), None)]);
+    let (fa, rest): (Vec<(Name, Option<u8>)>, Option<Name>) = (vec![(n("a"), None), (n("b"), None)], None);
     let b = Binder::new();
-    let r = snippet_bind_args(&fa, &b, call(vec![], vec![("b", css::Value::False), ("a", css::Value::True)]));
+    let r = snippet_bind_args(&fa, &rest, &b, call(vec![], vec![("b", F), ("a", T)]));
     assert!(r.is_ok());
     let ev = b.events();
-    assert!(ev.len() == 2 && ev[0] == Ev::Bound(b'a', 1) && ev[1] == Ev::Bound(b'b', 2), "named arguments bind by name, parameters in declaration order");
+    assert!(ev.len() == 2 && ev[0] == Ev::Bound(b'a', T) && ev[1] == Ev::Bound(b'b', F), "named arguments bind by name, parameters in declaration order");
 }
 /// C18: too many, unknown, missing arguments are errors.
 #[kani::proof]
 #[kani::unwind(6)]
 fn c18_missing_argument_is_an_error() {
-    let fa = FormalArgs::new(vec![(n("a"), None), (n("b"), None)]);
+    let (fa, rest): (Vec<(Name, Option<u8>)>, Option<Name>) = (vec![(n("a"), None), (n("b"), None)], None);
     let b = Binder::new();
-    let r = snippet_bind_args(&fa, &b, call(vec![css::Value::True], vec![]));
+    let r = snippet_bind_args(&fa, &rest, &b, call(vec![T], vec![]));
     assert!(matches!(r, Err(BindError::Missing(ref m)) if m.as_ref() == "b"), "missing $b is an error");
 }
 #[kani::proof]
 #[kani::unwind(6)]
 fn c18_too_many_arguments_is_an_error() {
-    let fa = FormalArgs::new(vec![(n("a"), None)]);
+    let (fa, rest): (Vec<(Name, Option<u8>)>, Option<Name>) = (vec![(n("a"), None)], None);
     let b = Binder::new();
-    let r = snippet_bind_args(&fa, &b, call(vec![css::Value::True, css::Value::False], vec![]));
+    let r = snippet_bind_args(&fa, &rest, &b, call(vec![T, F], vec![]));
     assert!(matches!(r, Err(BindError::TooMany(1, 2))), "two arguments for one parameter is an error");
     assert!(b.events().is_empty(), "nothing is bound");
 }
 #[kani::proof]
 #[kani::unwind(6)]
 fn c18_unknown_named_argument_is_an_error() {
-    let fa = FormalArgs::new(vec![(n("a"), Some(Value::Null))]);
+    let (fa, rest): (Vec<(Name, Option<u8>)>, Option<Name>) = (vec![(n("a"), Some(0))], None);
     let b = Binder::new();
-    let r = snippet_bind_args(&fa, &b, call(vec![], vec![("c", css::Value::True)]));
+    let r = snippet_bind_args(&fa, &rest, &b, call(vec![], vec![("c", T)]));
     assert!(matches!(r, Err(BindError::Unexpected(ref m)) if m.as_ref() == "c"), "an argument named $c is an error when there is no such parameter");
 }
 /// C18: extras go into the rest parameter.
@@ -171,12 +196,13 @@ fn c18_unknown_named_argument_is_an_error() {
 #[kani::unwind(6)]
 fn c18_extras_go_to_rest_parameter() {
     // @function f($a, $rest...) called as f(true, false, null)
-    let fa = FormalArgs::new_va(vec![(n("a"), None), (n("rest"), None)]);
+    // FormalArgs::new_va splits the last parameter off as the rest parameter
+    let (fa, rest): (Vec<(Name, Option<u8>)>, Option<Name>) = (vec![(n("a"), None)], Some(n("rest")));
     let b = Binder::new();
-    let r = snippet_bind_args(&fa, &b, call(vec![css::Value::True, css::Value::False, css::Value::Null], vec![]));
+    let r = snippet_bind_args(&fa, &rest, &b, call(vec![T, F, N0], vec![]));
     assert!(r.is_ok(), "extra positional arguments are not an error with a rest parameter");
     let ev = b.events();
-    assert!(ev.len() == 2 && ev[0] == Ev::Bound(b'a', 1) && ev[1] == Ev::Bound(b'r', 12), "$a by position, the two extras in $rest");
+    assert!(ev.len() == 2 && ev[0] == Ev::Bound(b'a', T) && ev[1] == Ev::Bound(b'r', V::ArgList(2)), "$a by position, the two extras in $rest");
 }
 /// C18: `-` and `_` are equivalent in names.
 #[kani::proof]
@@ -190,6 +216,7 @@ fn c18_name_dash_underscore_equivalent() {
 #[kani::proof]
 #[kani::unwind(6)]
 fn cover_formalargs() {
-    let fa = FormalArgs::new(vec![(n("a"), None)]);
-    kani::cover!(!fa.is_varargs());
+    let k: u8 = kani::any();
+    let a = call(vec![V::Plain(k)], vec![]);
+    kani::cover!(a.len() == 1 && k == 7);
 }
